@@ -162,9 +162,15 @@ func cmdProp(args []string) {
 			engineErrs = append(engineErrs, "contract for unknown function "+k)
 			continue
 		}
+		syncOnly := false
 		if fc != nil && fc.Trusted && *id != "C09" && !invOnly[k] {
 			trusted["trusted contract (body not verified): "+shortTypeKey(k)] = true
-			continue
+			if !inC09Package(k) {
+				continue
+			}
+			// the functional contract is taken on trust, the lock discipline of the body is not: its guard / lock
+			// obligations are checked like everybody else's
+			syncOnly = true
 		}
 		x, err := e.VerifyFunction(k)
 		if err != nil {
@@ -185,6 +191,12 @@ func cmdProp(args []string) {
 		}
 		var mine []*Obligation
 		for _, ob := range x.obs {
+			if syncOnly {
+				if ob.Kind == "guard" || ob.Kind == "lock" || strings.HasSuffix(ob.Kind, ":holds") || strings.HasSuffix(ob.Kind, ":deadlock") {
+					mine = append(mine, ob)
+				}
+				continue
+			}
 			if invOnly[k] {
 				if ob.Kind == "inv" && (len(ob.Props) == 0 || hasProp(ob.Props, *id)) {
 					mine = append(mine, ob)
